@@ -32,8 +32,12 @@ def main() -> int:
         d = Path(os.environ.get("VERIF_ROOT") or "/verif") / "replays"
         d.mkdir(exist_ok=True)
         path = d / f"{a.pid}_{a.tier}_harness_crash.json"
-        path.write_text(json.dumps(dict(property=a.pid, broken="harness crashed while driving the implementation",
-                                        traceback=tb), indent=1))
+        import common
+        what = "harness crashed while driving the implementation"
+        if "BuildError" in tb:
+            what = ("the model / oracle files this check evaluates no longer compile against the current source "
+                    "(translator or build): " + "; ".join(f"{k}: {v}" for k, v in list(common.LAST_BUILD.get("broken", {}).items())[:3]))
+        path.write_text(json.dumps(dict(property=a.pid, broken=what, traceback=tb), indent=1))
         sys.stderr.write(tb)
         print(f"VIOLATION property={a.pid} replay={path} no-failing-input-found")
         return 1
